@@ -34,4 +34,5 @@ def load(source: AnyPath) -> Iterator[dict[str, str]]:
         header = next(fh).rstrip('\r\n')
         fields = tuple(map(str.lower, header.split('\t')))
         for line in fh:
-            yield dict(zip(fields, line.rstrip('\r\n').split('\t')))
+            if line.strip():  # blank lines do not list an ILI
+                yield dict(zip(fields, line.rstrip('\r\n').split('\t')))
